@@ -4,8 +4,8 @@
                                         the nested call forwards default= (not call_on_nested=, as _apply_nest)
      _td.py::_multithread_rebuild       zip(self.keys(), local_futures); the nested rebuild receives out[key]; names= is
                                         not forwarded; the filter_empty rule of _apply_nest; the result is created eagerly;
-                                        non-tensor entries go through the tensorclass wrapper (a new entry with self's data)
-   (as of the repairs of S15 / S16 / C12-b / C12-c / C20-d; before them: default= dropped below the root, the ROOT out and
+                                        non-tensor entries: a copy of self's entry (as _apply_nest)
+   (as of the repairs of S15 / S16 / C12-b / C12-c / C20-d / C20-g; before them: default= dropped below the root, the ROOT out and
     the ROOT names handed to every nested rebuild, `filter_empty and not any_set` only, device != out.device always raised)
    Tasks complete in an arbitrary order [pi]; the rebuild reads each result with Future.result().
    Definitions only. *)
@@ -85,25 +85,10 @@ Definition set_item_mt (r : racc A) (k : string) (v : tree A) : res (racc A) :=
 Definition rebuild_init (so : obj) (sm : meta) (sf : forest A) (out : option (tree A)) (names : option dnames) : res (racc A) :=
   bind (level_init A o so sm sf out) (fun i => Ok (match i with Some a => a | None => make_result A o sm names end)).
 
-(* a non-tensor entry: tensorclass._multithread_rebuild rebuilds the (empty) wrapped tensordict — into out[key] when
-   there is one — and re-wraps it with the data of self's entry.
-   DEFECT C20-g: the new entry carries the metadata of out[key], NonTensorData._apply_nest gives it those of self's entry.
-   When repaired (a rebuild that mirrors _apply_nest): [Ok (NonT New d (result_meta o im None))] in every branch that
-   returns, and the hypothesis [out <> None -> nont_free] of C20_mt_equals_st_partial can go. *)
-Definition nont_rebuild (d : Z) (im : meta) (out_k : option (tree A)) : res (tree A) :=
-  match out_k with
-  | None => Ok (NonT New d (result_meta o im None))
-  | Some (Leaf _ _) => Raised EAttr
-  | Some (NonT oo _ om) =>
-      bind (level_init A o New im FNil (Some (Node oo om FNil))) (fun i =>
-      Ok (NonT New d (match i with Some a => r_meta A a | None => om end)))
-  | Some (Node oo om og) =>
-      bind (level_init A o New im FNil (Some (Node oo om og))) (fun i =>
-      match og with
-      | FNil => Ok (NonT New d (match i with Some a => r_meta A a | None => om end))
-      | _ => Raised EValue                 (* the keys of out[key] are not attributes of NonTensorData *)
-      end)
-  end.
+(* a non-tensor entry: NonTensorData._multithread_rebuild returns what NonTensorData._apply_nest returns — a copy of self's
+   entry with the batch_size / device overrides, whatever out= holds under the key (repair of C20-g; before it: the wrapped
+   empty tensordict was rebuilt into out[key] and re-wrapped, so the new entry carried the metadata of out[key], and in
+   place the entry itself was handed back) *)
 
 (* [out]: the out= of this level (the object being written when not in place) *)
 Fixpoint rebuild_items (out : option (tree A)) (sf : forest A) (items : forest A) (lfs : list lf) (acc : racc A) (any : bool)
@@ -133,11 +118,7 @@ Fixpoint rebuild_items (out : option (tree A)) (sf : forest A) (items : forest A
               | None => rebuild_items out sf rest lrest acc any
               end))
           | NonT io d im =>
-              if o_inplace o then
-                mbind (of_res (set_item_mt acc k (NonT io d im))) (fun acc' => rebuild_items out sf rest lrest acc' true)
-              else
-                mbind (of_res (nont_rebuild d im out_k)) (fun v =>
-                mbind (of_res (set_item_mt acc k v)) (fun acc' => rebuild_items out sf rest lrest acc' true))
+              mbind (of_res (set_item_mt acc k (nont_apply A o d im out_k))) (fun acc' => rebuild_items out sf rest lrest acc' true)
           end)
       end
   | _, _ => MStuck
